@@ -201,6 +201,53 @@ def look_alike_in_subqueries():
     return len(checks), bad
 
 
+UNIQUE_BESIDE_DUP_ROWS = [(1, 50, 'x'), (2, 10, 'y'), (3, 40, 'x'), (4, 20, 'y'), (5, 30, 'z')]
+
+
+def unique_name_beside_duplicates_checks():
+    """(sql, expected rows, expected description) - the outer query only uses output names carried by exactly ONE column of
+    the subquery, so the answer does not depend on which of two same-named columns a name designates"""
+    rows = UNIQUE_BESIDE_DUP_ROWS
+    by_g = {}
+    for a, b, g in rows:
+        by_g.setdefault(g, []).append((a, b))
+    return [
+        ('SELECT y FROM (SELECT a AS x, b AS x, g AS y FROM #t)', [(r[2],) for r in rows], [('y', 'str')]),
+        ('SELECT y FROM (SELECT g AS y, a AS x, b AS x FROM #t)', [(r[2],) for r in rows], [('y', 'str')]),
+        ('SELECT y, z FROM (SELECT a AS x, g AS y, b AS x, b AS z FROM #t)', [(r[2], r[1]) for r in rows],
+         [('y', 'str'), ('z', 'int')]),
+        ('SELECT a + 1 AS n FROM (SELECT g, g, a FROM #t) ORDER BY n', [(r[0] + 1,) for r in rows], [('n', 'int')]),
+        ('SELECT b, a FROM (SELECT a, g, g, g, b FROM #t)', [(r[1], r[0]) for r in rows], [('b', 'int'), ('a', 'int')]),
+        ('SELECT g, s FROM (SELECT g, count(a), count(a), sum(b) AS s FROM #t GROUP BY g) ORDER BY g',
+         [(g, sum(b for _, b in by_g[g])) for g in sorted(by_g)], [('g', 'str'), ('s', 'int')]),
+        ('SELECT sum(b) AS s FROM (SELECT a, a, b, g FROM #t) WHERE g = \'x\'', [(90,)], [('s', 'int')]),
+        ('SELECT y FROM (SELECT y, a FROM (SELECT a, b AS k, a + b AS k, g AS y FROM #t)) LIMIT 2',
+         [(r[2],) for r in rows[:2]], [('y', 'str')]),
+    ]
+
+
+def run_unique_beside_dup(sql):
+    t = impl.make_table('t', [('a', int), ('b', int), ('g', str)], UNIQUE_BESIDE_DUP_ROWS)
+    conn = impl.connection({'t': t})
+    try:
+        cur = conn.execute(sql)
+        return [tuple(r) for r in cur.fetchall()], [(d.name, d.datatype.__name__) for d in cur.description]
+    except Exception as e:  # noqa: BLE001
+        return repr(e), None
+
+
+def unique_name_beside_duplicates():
+    """A subquery with a duplicated output name AND further, uniquely named outputs (left of, between, right of the
+    duplicates; plain, aggregated, nested twice): every uniquely named column must still read ITS position."""
+    checks = unique_name_beside_duplicates_checks()
+    bad = []
+    for sql, want, wdesc in checks:
+        got, gdesc = run_unique_beside_dup(sql)
+        if got != want or gdesc != wdesc:
+            bad.append((sql, [got, gdesc], [want, wdesc]))
+    return len(checks), bad
+
+
 def nested_in_three_tables():
     """x IN (SELECT .. FROM #u WHERE .. IN (SELECT .. FROM #v)) followed by more uses of the OUTER table's columns."""
     t = impl.make_table('t', [('a', int), ('y', int)], [(1, 10), (2, 20), (3, 30), (4, 40)])
@@ -502,7 +549,8 @@ def run(tier, rng):
                 violations.append(core.Violation(
                     'in-subquery-shaped', f'{c["sql"]} with #t={c["rows"]} #u={c["urows"]}: {bad}',
                     {'kind': 'in-shaped', 'case': c, 'impl': io, 'model': m}, signature=sig))
-    for fn, kind in ((same_type_columns, 'subquery-column-identity'), (nested_in_three_tables, 'nested-in'), (inner_order_kept, 'inner-order'), (look_alike_in_subqueries, 'look-alike-in')):
+    for fn, kind in ((same_type_columns, 'subquery-column-identity'), (nested_in_three_tables, 'nested-in'), (inner_order_kept, 'inner-order'), (look_alike_in_subqueries, 'look-alike-in'),
+                     (unique_name_beside_duplicates, 'unique-name-beside-duplicates')):
         nchk, cbad = fn()
         for sql, got, want in cbad[:2]:
             violations.append(core.Violation(kind, f'{sql}: got {got}, expected {want}', {'kind': kind, 'sql': sql, 'got': got, 'want': want},
@@ -525,7 +573,8 @@ def run(tier, rng):
             violations.append(core.Violation('star-duplicate-names', f'SELECT * FROM ({inner}) raised {e!r}',
                                              {'kind': 'star-dup', 'inner': inner}, signature='star-duplicate-names:' + inner))
     cov = {
-        'evaluations': len(cases) + len(incases) + len(shaped) + 3, 'distinct_nontrivial': nontrivial,
+        'evaluations': len(cases) + len(incases) + len(shaped) + 3 + len(unique_name_beside_duplicates_checks()),
+        'unique_name_beside_duplicates_checks': len(unique_name_beside_duplicates_checks()), 'distinct_nontrivial': nontrivial,
         'in_shaped_subqueries': len(shaped), 'in_shaped_histograms': shist,
         'in_shaped_samples': [c['sql'] for c in shaped[:4]],
         'rule': 'random nestings (depth 1-3) of plain and aggregate queries (WHERE, GROUP BY with hidden keys, HAVING, ORDER BY with hidden '
@@ -550,4 +599,9 @@ def replay(rec):
         io = run_in_shaped_impl(c)
         m = core.coq_eval('c08r', IMPORTS, [c['coq']])[0]
         return io['nested'] == io['member'] and io['nested'] == m
+    if rec.get('kind') == 'unique-name-beside-duplicates':
+        for sql, want, wdesc in unique_name_beside_duplicates_checks():
+            if sql == rec['sql']:
+                got, gdesc = run_unique_beside_dup(sql)
+                return got == want and gdesc == wdesc
     return True
